@@ -1,3 +1,4 @@
+import UberjobModel.Lemmas.EngineRefineLive
 import UberjobModel.Lemmas.EngineMeasure
 import UberjobModel.Lemmas.KahnSound
 import UberjobModel.Lemmas.GraphWF
@@ -97,5 +98,23 @@ theorem C07_skeleton : skeleton.faithful = true := skeleton_faithful
 example : (run? diamond ⟨2, some 0⟩ (init diamond) diamondRun).map (·.coord) = some (.returned false) := by decide
 example : Kahn.kahn diamond = some [0, 2, 1, 3] := by decide
 example : Kahn.kahn (Graph.ofEdges [0, 1, 2] [(0, 1), (1, 2), (2, 1)]) = none := by decide
+
+/-! ### The fine model: the two locks as explicit resources (`Model/EngineFine.lean`) -/
+
+open Uberjob.EngineFine in
+/-- **Termination, statement by statement**: every step of the fine model — in which the `remaining_pred_count_lock` block
+    and the `failure_lock` block are five interleavable steps each — strictly decreases `mu2`, so every schedule of the
+    individual statements is finite. -/
+theorem C07_fine_terminates {g : Graph} (hg : g.WF) {cfg : Cfg} {s s' : St2} {l : Label2}
+    (hr : Reach2 g cfg s) (h : step2? g cfg s l = some s') : mu2 g cfg s' < mu2 g cfg s :=
+  mu2_decreases hg hr h
+
+open Uberjob.EngineFine in
+/-- **No deadlock with the locks as resources**: unless the run has returned some thread can take a step; a thread never
+    waits for one of the two locks while holding the other, and a lock holder can always take the next step of its block. -/
+theorem C07_fine_no_deadlock {g : Graph} (hg : g.WF) {cfg : Cfg} (hw : 1 ≤ cfg.workers) {s : St2}
+    (hr : Reach2 g cfg s) (hnf : ∀ i, s.c.coord ≠ .returned i) :
+    ∃ l, l ≠ Label2.base .interrupt ∧ (step2? g cfg s l).isSome :=
+  fine_progress hg hw hr hnf
 
 end Uberjob.Engine
